@@ -838,12 +838,33 @@ class Node:
         """
         if with_clones:
             for c in self.get_clones():  # Excluding self
+                if c._tree is None:
+                    continue  # was already removed with the branch of another clone
                 c.remove(keep_children=keep_children, with_clones=False)
+            if self._tree is None:
+                return  # was already removed with the branch of one of the clones
             assert not self.is_clone()
 
         if keep_children:
-            for c in self.children.copy():
-                c.move_to(self._parent, before=self)
+            if self._children:
+                parent = self._parent
+                # Check uniqueness first, so a refused call has no partial effect
+                sibling_ids = {
+                    n._data_id
+                    for n in parent._children  # type: ignore
+                    if n is not self
+                }
+                for c in self._children:
+                    if c._data_id in sibling_ids:
+                        raise UniqueConstraintError(
+                            f"Node.data already exists in parent: {c}"
+                        )
+                # Move the children one level up, to the position of this node
+                idx = Node.get_index(self)
+                for c in self._children:
+                    c._parent = parent
+                parent._children[idx:idx] = self._children  # type: ignore
+                self._children = None
         else:
             self.remove_children()
 
